@@ -18,12 +18,13 @@ Ev == T[l]
 IsEv(e) == l <= Len(T) /\ Ev.e = e /\ l' = l + 1
 
 PP == [off |-> Ev.off, size |-> Ev.size, cap |-> Ev.cap, nrel |-> Ev.nrel, nfix |-> Ev.nfix]
+HasSlotsP == \E x \in slots' : x.sec = cur'
+FreeP(i) == \E x \in slots' : x.sec = cur' /\ i - 1 >= x.lo /\ i - 1 < x.hi
 (* the whole current section after the call equals the model (what lies outside the window did not change) *)
-After == /\ (Has(Ev, "coh") => Ev.coh)      \* offset()/buffer_data()/buffer_capacity()/remaining_space() agree with the section's CodeBuffer
-         /\ (Has(Ev, "dig") => (HasSlots(cur') \/ Ev.dig = Digest(secs'[cur'].mem)))
-         /\ (Has(Ev, "img") => /\ Len(Ev.img) = Len(secs'[cur'].mem)
-                               /\ \A i \in 1 .. Len(Ev.img) :
-                                     (\E x \in slots' : x.sec = cur' /\ i - 1 >= x.lo /\ i - 1 < x.hi) \/ Ev.img[i] = secs'[cur'].mem[i])
+After == B(/\ (Has(Ev, "coh") => Ev.coh)     \* offset()/buffer_data()/buffer_capacity()/remaining_space() agree with the section's CodeBuffer
+           /\ (Has(Ev, "dig") => (HasSlotsP \/ Ev.dig = Digest(secs'[cur'].mem)))
+           /\ (Has(Ev, "img") => /\ Len(Ev.img) = Len(secs'[cur'].mem)
+                                 /\ \A i \in 1 .. Len(Ev.img) : FreeP(i) \/ Ev.img[i] = secs'[cur'].mem[i]))
 
 TInit == /\ arch = "x64" /\ opt = FALSE /\ att = FALSE
          /\ secs = <<[mem |-> <<>>, cap |-> 0, fixed |-> FALSE]>>
@@ -49,10 +50,10 @@ TEmbedConstPool == IsEv("EmbedConstPool")
                    /\ EmbedConstPool(Ev.lab, Ev.palign, Ev.image, Ev.r, Ev.app, PP, Ev.lb) /\ After
 TEmbedLabel == IsEv("EmbedLabel") /\ EmbedLabel(Ev.lab, Ev.sz, Ev.r, Ev.app, PP) /\ After
 TEmbedLabelDelta == IsEv("EmbedLabelDelta") /\ EmbedLabelDelta(Ev.lab, Ev.base, Ev.sz, Ev.r, Ev.app, PP) /\ After
-TNewLabel == IsEv("NewLabel") /\ NewLabel /\ Ev.n = Len(labs')
+TNewLabel == IsEv("NewLabel") /\ NewLabel /\ B(Ev.n = Len(labs'))
 TBind == IsEv("Bind") /\ Bind(Ev.lab, Ev.r, PP) /\ After
 TSetOffset == IsEv("SetOffset") /\ SetOffset(Ev.o, Ev.r, PP) /\ After
-TNewSection == IsEv("NewSection") /\ NewSection(Ev.kind, Ev.capreq, Ev.cap) /\ Ev.n = Len(secs')
+TNewSection == IsEv("NewSection") /\ NewSection(Ev.kind, Ev.capreq, Ev.cap) /\ B(Ev.n = Len(secs'))
 TSection == IsEv("Section") /\ SwitchSection(Ev.sec, Ev.r, PP) /\ After
 TReserve == IsEv("Reserve") /\ Reserve(Ev.sec, Ev.n, Ev.r, Ev.scap, PP) /\ After
 TInst == IsEv("Inst") /\ Inst(Ev.r, Ev.app, PP) /\ After
@@ -63,10 +64,10 @@ TComment == IsEv("Comment") /\ Comment(Ev.r, PP) /\ After
 (* Builder of the same architecture and serialized by finalize() into a second CodeHolder (C08 claims the       *)
 (* equality with direct assembling; here the serialized result is held against the same contract state).        *)
 TImages == /\ IsEv("Images")
-           /\ Ev.r = "Ok"
-           /\ Len(Ev.imgs) = Len(secs)
-           /\ \A s \in 1 .. Len(secs) : ImgOK(s, Ev.imgs[s])
-           /\ Ev.labs = labs
+           /\ B(/\ Ev.r = "Ok"
+                /\ Len(Ev.imgs) = Len(secs)
+                /\ \A s \in 1 .. Len(secs) : ImgOK(s, Ev.imgs[s])
+                /\ Ev.labs = labs)
            /\ UNCHANGED <<arch, opt, att, secs, cur, off, labs, slots, nrel, nfix, last>>
 
 TNext == \/ TReset \/ TDetached \/ TAttach \/ TSetOpt \/ TAlign \/ TEmbed \/ TEmbedArray \/ TEmbedConstPool
